@@ -113,8 +113,9 @@ pub mod rt {
     pub threads_spawned: u32,
     pub panics: Vec<(u32, String)>,
     pub trace: Vec<String>,
-    /// (extension) a `Config.replay` entry was out of range for the decision it was applied to, i.e.
-    /// the replayed program did not behave like the recorded one.  The entry was taken modulo n.
+    /// (extension) a `Config.replay` entry was out of range for the decision it was applied to (it was
+    /// then taken modulo n), or the run ended normally before the prefix was used up: the replayed
+    /// program did not behave like the recorded one.
     pub replay_diverged: bool,
   }
 
@@ -208,6 +209,7 @@ pub mod rt {
     st: Mutex<State>,
     caller: Arc<Parker>,
     next_lock: AtomicU32,
+    next_map: AtomicU64,
     steps: AtomicU64, // mirrors of State.steps / State.now for lock-free reads
     now: AtomicU64,
   }
@@ -235,9 +237,7 @@ pub mod rt {
 
   /// Controlled-mode handle of the calling thread.  `None` in passive mode and also while the
   /// thread-local is being destroyed (`try_with` fails), which degrades to passive behaviour.
-  pub(super) fn ctx() -> Option<(Arc<Runtime>, u32)> {
-    TLS.try_with(|t| t.ctx.borrow().clone()).ok().flatten()
-  }
+  pub(super) fn ctx() -> Option<(Arc<Runtime>, u32)> { TLS.try_with(|t| t.ctx.borrow().clone()).ok().flatten() }
   fn with_ctx<R>(f: impl FnOnce(Option<&(Arc<Runtime>, u32)>) -> R) -> R {
     let mut f = Some(f);
     match TLS.try_with(|t| (f.take().unwrap())(t.ctx.borrow().as_ref())) {
@@ -253,9 +253,7 @@ pub mod rt {
     z = (z ^ (z >> 27)).wrapping_mul(0x94D0_49BB_1331_11EB);
     z ^ (z >> 31)
   }
-  fn below(s: &mut u64, n: usize) -> usize {
-    (((splitmix(s) >> 32) * n as u64) >> 32) as usize
-  }
+  fn below(s: &mut u64, n: usize) -> usize { (((splitmix(s) >> 32) * n as u64) >> 32) as usize }
 
   fn lock_name(run_id: u64, id: u64) -> String {
     let (r, n) = (id >> 32, id & 0xffff_ffff);
@@ -290,6 +288,18 @@ pub mod rt {
     with_ctx(|c| match c {
       Some((rt, _)) => (rt.run_id << 32) | (rt.next_lock.fetch_add(1, SeqCst) as u64 + 1),
       None => (PASSIVE_IDS.fetch_add(1, SeqCst) + 1) & 0xffff_ffff,
+    })
+  }
+
+  /// Hash key for a new facade `collections::HashMap`: a function of (seed, creation index) inside a
+  /// run, constant in passive mode -- iteration order is reproducible, never RandomState's.
+  pub(super) fn map_key() -> u64 {
+    with_ctx(|c| match c {
+      Some((rt, _)) => {
+        let mut s = rt.cfg.seed ^ rt.next_map.fetch_add(1, SeqCst).wrapping_mul(0xA24B_AED4_963E_E407);
+        splitmix(&mut s)
+      }
+      None => 0,
     })
   }
 
@@ -352,12 +362,8 @@ pub mod rt {
   }
 
   impl Runtime {
-    fn lock(&self) -> MutexGuard<'_, State> {
-      self.st.lock().unwrap_or_else(|e| e.into_inner())
-    }
-    fn lname(&self, id: u64) -> String {
-      lock_name(self.run_id, id)
-    }
+    fn lock(&self) -> MutexGuard<'_, State> { self.st.lock().unwrap_or_else(|e| e.into_inner()) }
+    fn lname(&self, id: u64) -> String { lock_name(self.run_id, id) }
     fn tr(&self, st: &mut State, tid: u32, op: &str, obj: Option<u64>, site: Option<Site>) {
       if self.cfg.trace {
         let o = obj.map(|i| self.lname(i)).unwrap_or_else(|| "-".into());
@@ -803,6 +809,7 @@ pub mod rt {
       st: Mutex::new(state),
       caller: Parker::new(),
       next_lock: AtomicU32::new(0),
+      next_map: AtomicU64::new(0),
       steps: AtomicU64::new(0),
       now: AtomicU64::new(0),
     });
@@ -816,6 +823,7 @@ pub mod rt {
 
     let mut st = rt.lock();
     let status = st.done.take().unwrap_or(Status::Ok);
+    let status_is_ok = status == Status::Ok; // a replay prefix longer than a run that ended normally = divergence
     let live_threads = rt.live(&st);
     // Finished threads are past their last scheduling point: their OS threads exit promptly; reap them
     // so that sequences of runs do not accumulate threads.  Unfinished ones stay parked forever.
@@ -835,7 +843,7 @@ pub mod rt {
       threads_spawned: st.threads.len() as u32 - 1,
       panics: ::std::mem::take(&mut st.panics),
       trace: ::std::mem::take(&mut st.trace),
-      replay_diverged: st.replay_diverged,
+      replay_diverged: st.replay_diverged || (rt.cfg.replay.len() as u64 > st.steps && status_is_ok),
     };
     drop(st);
     for h in reap {
@@ -844,18 +852,10 @@ pub mod rt {
     out
   }
 
-  pub fn active() -> bool {
-    with_ctx(|c| c.is_some())
-  }
-  pub fn thread_id() -> u32 {
-    with_ctx(|c| c.map(|c| c.1).unwrap_or(u32::MAX))
-  }
-  pub fn now() -> u64 {
-    with_ctx(|c| c.map(|c| c.0.now.load(SeqCst)).unwrap_or(0))
-  }
-  pub fn step() -> u64 {
-    with_ctx(|c| c.map(|c| c.0.steps.load(SeqCst)).unwrap_or(0))
-  }
+  pub fn active() -> bool { with_ctx(|c| c.is_some()) }
+  pub fn thread_id() -> u32 { with_ctx(|c| c.map(|c| c.1).unwrap_or(u32::MAX)) }
+  pub fn now() -> u64 { with_ctx(|c| c.map(|c| c.0.now.load(SeqCst)).unwrap_or(0)) }
+  pub fn step() -> u64 { with_ctx(|c| c.map(|c| c.0.steps.load(SeqCst)).unwrap_or(0)) }
   pub fn yield_point(label: &'static str) {
     if let Some((rt, me)) = ctx() {
       rt.yield_now(me, label);
@@ -873,8 +873,83 @@ pub mod rt {
   /// (extension, process-global, sampled at the start of each run) model std's writer-preferring
   /// RwLock: a read request is refused while a writer is blocked behind existing readers, so a
   /// recursive read with a writer queued in between is reported as `Deadlock`.  Default: false.
-  pub fn set_writer_preference(on: bool) {
-    WRITER_PREF.store(on, SeqCst);
+  pub fn set_writer_preference(on: bool) { WRITER_PREF.store(on, SeqCst); }
+}
+
+// =====================================================================================================
+pub mod collections {
+  //! `HashMap` with a reproducible hasher.  std's `RandomState` draws fresh random keys per thread, so
+  //! the iteration order of e.g. `Subject.observers` would differ between two runs of the same schedule
+  //! and break replay.  Here the hash key is a function of (Config.seed, creation index in the run), or a
+  //! constant in passive mode.  Everything else goes through Deref to the real std map.
+  pub use ::std::collections::*;
+  use ::std::collections::HashMap as StdMap;
+  use ::std::hash::{BuildHasher, DefaultHasher, Hash, Hasher};
+  use ::std::ops::{Deref, DerefMut};
+
+  #[derive(Clone, Copy, Debug, Default)]
+  pub struct VerifState(u64);
+  impl BuildHasher for VerifState {
+    type Hasher = DefaultHasher;
+    fn build_hasher(&self) -> DefaultHasher {
+      let mut h = DefaultHasher::new(); // fixed SipHash keys
+      h.write_u64(self.0);
+      h
+    }
+  }
+
+  pub struct HashMap<K, V>(StdMap<K, V, VerifState>);
+  impl<K, V> HashMap<K, V> {
+    pub fn new() -> Self { HashMap(StdMap::with_hasher(VerifState(super::rt::map_key()))) }
+    pub fn with_capacity(n: usize) -> Self { HashMap(StdMap::with_capacity_and_hasher(n, VerifState(super::rt::map_key()))) }
+  }
+  impl<K, V> Deref for HashMap<K, V> {
+    type Target = StdMap<K, V, VerifState>;
+    fn deref(&self) -> &Self::Target { &self.0 }
+  }
+  impl<K, V> DerefMut for HashMap<K, V> {
+    fn deref_mut(&mut self) -> &mut Self::Target { &mut self.0 }
+  }
+  impl<K, V> Default for HashMap<K, V> {
+    fn default() -> Self { Self::new() }
+  }
+  impl<K: Clone, V: Clone> Clone for HashMap<K, V> {
+    fn clone(&self) -> Self { HashMap(self.0.clone()) }
+  }
+  impl<K: ::std::fmt::Debug, V: ::std::fmt::Debug> ::std::fmt::Debug for HashMap<K, V> {
+    fn fmt(&self, f: &mut ::std::fmt::Formatter<'_>) -> ::std::fmt::Result { self.0.fmt(f) }
+  }
+  impl<K: Eq + Hash, V: PartialEq> PartialEq for HashMap<K, V> {
+    fn eq(&self, o: &Self) -> bool { self.0 == o.0 }
+  }
+  impl<K: Eq + Hash, V: Eq> Eq for HashMap<K, V> {}
+  impl<K: Eq + Hash, V> FromIterator<(K, V)> for HashMap<K, V> {
+    fn from_iter<I: IntoIterator<Item = (K, V)>>(it: I) -> Self {
+      let mut m = Self::new();
+      m.0.extend(it);
+      m
+    }
+  }
+  impl<K: Eq + Hash, V> Extend<(K, V)> for HashMap<K, V> {
+    fn extend<I: IntoIterator<Item = (K, V)>>(&mut self, it: I) { self.0.extend(it) }
+  }
+  impl<K: Eq + Hash, V, const N: usize> From<[(K, V); N]> for HashMap<K, V> {
+    fn from(a: [(K, V); N]) -> Self { a.into_iter().collect() }
+  }
+  impl<K, V> IntoIterator for HashMap<K, V> {
+    type Item = (K, V);
+    type IntoIter = ::std::collections::hash_map::IntoIter<K, V>;
+    fn into_iter(self) -> Self::IntoIter { self.0.into_iter() }
+  }
+  impl<'a, K, V> IntoIterator for &'a HashMap<K, V> {
+    type Item = (&'a K, &'a V);
+    type IntoIter = ::std::collections::hash_map::Iter<'a, K, V>;
+    fn into_iter(self) -> Self::IntoIter { self.0.iter() }
+  }
+  impl<'a, K, V> IntoIterator for &'a mut HashMap<K, V> {
+    type Item = (&'a K, &'a mut V);
+    type IntoIter = ::std::collections::hash_map::IterMut<'a, K, V>;
+    fn into_iter(self) -> Self::IntoIter { self.0.iter_mut() }
   }
 }
 
@@ -924,9 +999,7 @@ pub mod sync {
     pub fn new(t: T) -> RwLock<T> {
       RwLock { id: rt::new_id(), site: Location::caller(), inner: ss::RwLock::new(t) }
     }
-    pub fn into_inner(self) -> ss::LockResult<T> {
-      self.inner.into_inner()
-    }
+    pub fn into_inner(self) -> ss::LockResult<T> { self.inner.into_inner() }
   }
   impl<T: ?Sized> RwLock<T> {
     #[track_caller]
@@ -949,62 +1022,38 @@ pub mod sync {
         wrap_try(self.inner.try_write(), rel, site, |inner, rel| RwLockWriteGuard { inner, rel })
       }
     }
-    pub fn get_mut(&mut self) -> ss::LockResult<&mut T> {
-      self.inner.get_mut()
-    }
-    pub fn is_poisoned(&self) -> bool {
-      self.inner.is_poisoned()
-    }
-    pub fn clear_poison(&self) {
-      self.inner.clear_poison()
-    }
-    pub fn verif_id(&self) -> u64 {
-      self.id
-    }
+    pub fn get_mut(&mut self) -> ss::LockResult<&mut T> { self.inner.get_mut() }
+    pub fn is_poisoned(&self) -> bool { self.inner.is_poisoned() }
+    pub fn clear_poison(&self) { self.inner.clear_poison() }
+    pub fn verif_id(&self) -> u64 { self.id }
   }
   impl<T: Default> Default for RwLock<T> {
     #[track_caller]
-    fn default() -> Self {
-      RwLock::new(T::default())
-    }
+    fn default() -> Self { RwLock::new(T::default()) }
   }
   impl<T> From<T> for RwLock<T> {
     #[track_caller]
-    fn from(t: T) -> Self {
-      RwLock::new(t)
-    }
+    fn from(t: T) -> Self { RwLock::new(t) }
   }
   impl<T: ?Sized + fmt::Debug> fmt::Debug for RwLock<T> {
-    fn fmt(&self, f: &mut fmt::Formatter<'_>) -> fmt::Result {
-      self.inner.fmt(f)
-    }
+    fn fmt(&self, f: &mut fmt::Formatter<'_>) -> fmt::Result { self.inner.fmt(f) }
   }
   impl<T: ?Sized> Deref for RwLockReadGuard<'_, T> {
     type Target = T;
-    fn deref(&self) -> &T {
-      &self.inner
-    }
+    fn deref(&self) -> &T { &self.inner }
   }
   impl<T: ?Sized> Deref for RwLockWriteGuard<'_, T> {
     type Target = T;
-    fn deref(&self) -> &T {
-      &self.inner
-    }
+    fn deref(&self) -> &T { &self.inner }
   }
   impl<T: ?Sized> DerefMut for RwLockWriteGuard<'_, T> {
-    fn deref_mut(&mut self) -> &mut T {
-      &mut self.inner
-    }
+    fn deref_mut(&mut self) -> &mut T { &mut self.inner }
   }
   impl<T: ?Sized + fmt::Debug> fmt::Debug for RwLockReadGuard<'_, T> {
-    fn fmt(&self, f: &mut fmt::Formatter<'_>) -> fmt::Result {
-      (**self).fmt(f)
-    }
+    fn fmt(&self, f: &mut fmt::Formatter<'_>) -> fmt::Result { (**self).fmt(f) }
   }
   impl<T: ?Sized + fmt::Debug> fmt::Debug for RwLockWriteGuard<'_, T> {
-    fn fmt(&self, f: &mut fmt::Formatter<'_>) -> fmt::Result {
-      (**self).fmt(f)
-    }
+    fn fmt(&self, f: &mut fmt::Formatter<'_>) -> fmt::Result { (**self).fmt(f) }
   }
 
   // --------------------------------------------------------------------------------------- Mutex
@@ -1027,9 +1076,7 @@ pub mod sync {
     pub fn new(t: T) -> Mutex<T> {
       Mutex { id: rt::new_id(), site: Location::caller(), inner: ss::Mutex::new(t) }
     }
-    pub fn into_inner(self) -> ss::LockResult<T> {
-      self.inner.into_inner()
-    }
+    pub fn into_inner(self) -> ss::LockResult<T> { self.inner.into_inner() }
   }
   impl<T: ?Sized> Mutex<T> {
     #[track_caller]
@@ -1042,51 +1089,31 @@ pub mod sync {
         wrap_try(self.inner.try_lock(), rel, site, |inner, rel| MutexGuard { inner, rel, lock: self })
       }
     }
-    pub fn get_mut(&mut self) -> ss::LockResult<&mut T> {
-      self.inner.get_mut()
-    }
-    pub fn is_poisoned(&self) -> bool {
-      self.inner.is_poisoned()
-    }
-    pub fn clear_poison(&self) {
-      self.inner.clear_poison()
-    }
-    pub fn verif_id(&self) -> u64 {
-      self.id
-    }
+    pub fn get_mut(&mut self) -> ss::LockResult<&mut T> { self.inner.get_mut() }
+    pub fn is_poisoned(&self) -> bool { self.inner.is_poisoned() }
+    pub fn clear_poison(&self) { self.inner.clear_poison() }
+    pub fn verif_id(&self) -> u64 { self.id }
   }
   impl<T: Default> Default for Mutex<T> {
     #[track_caller]
-    fn default() -> Self {
-      Mutex::new(T::default())
-    }
+    fn default() -> Self { Mutex::new(T::default()) }
   }
   impl<T> From<T> for Mutex<T> {
     #[track_caller]
-    fn from(t: T) -> Self {
-      Mutex::new(t)
-    }
+    fn from(t: T) -> Self { Mutex::new(t) }
   }
   impl<T: ?Sized + fmt::Debug> fmt::Debug for Mutex<T> {
-    fn fmt(&self, f: &mut fmt::Formatter<'_>) -> fmt::Result {
-      self.inner.fmt(f)
-    }
+    fn fmt(&self, f: &mut fmt::Formatter<'_>) -> fmt::Result { self.inner.fmt(f) }
   }
   impl<T: ?Sized> Deref for MutexGuard<'_, T> {
     type Target = T;
-    fn deref(&self) -> &T {
-      &self.inner
-    }
+    fn deref(&self) -> &T { &self.inner }
   }
   impl<T: ?Sized> DerefMut for MutexGuard<'_, T> {
-    fn deref_mut(&mut self) -> &mut T {
-      &mut self.inner
-    }
+    fn deref_mut(&mut self) -> &mut T { &mut self.inner }
   }
   impl<T: ?Sized + fmt::Debug> fmt::Debug for MutexGuard<'_, T> {
-    fn fmt(&self, f: &mut fmt::Formatter<'_>) -> fmt::Result {
-      (**self).fmt(f)
-    }
+    fn fmt(&self, f: &mut fmt::Formatter<'_>) -> fmt::Result { (**self).fmt(f) }
   }
 
   // ------------------------------------------------------------------------------------- Condvar
@@ -1113,9 +1140,7 @@ pub mod sync {
       }
     }
     #[track_caller]
-    pub fn wait<'a, T>(&self, guard: MutexGuard<'a, T>) -> ss::LockResult<MutexGuard<'a, T>> {
-      self.wait_at(guard, Location::caller())
-    }
+    pub fn wait<'a, T>(&self, guard: MutexGuard<'a, T>) -> ss::LockResult<MutexGuard<'a, T>> { self.wait_at(guard, Location::caller()) }
     #[track_caller]
     pub fn wait_while<'a, T, F>(&self, mut guard: MutexGuard<'a, T>, mut condition: F) -> ss::LockResult<MutexGuard<'a, T>>
     where
@@ -1144,14 +1169,10 @@ pub mod sync {
   }
   impl Default for Condvar {
     #[track_caller]
-    fn default() -> Self {
-      Condvar::new()
-    }
+    fn default() -> Self { Condvar::new() }
   }
   impl fmt::Debug for Condvar {
-    fn fmt(&self, f: &mut fmt::Formatter<'_>) -> fmt::Result {
-      self.inner.fmt(f)
-    }
+    fn fmt(&self, f: &mut fmt::Formatter<'_>) -> fmt::Result { self.inner.fmt(f) }
   }
 }
 
